@@ -336,6 +336,31 @@ def group_descs(tier):
     return out
 
 
+def schema_descs(tier):
+    """extra shapes for the size annotations (no target compilation needed): checksums, unsized custom
+    fields, nested typedef paddings, inherited sizes"""
+    out = []
+    out.append(desc("little", [checksum("CRC", 16), packet("P", [checksum_start("crc"), scalar("a", 16), typedef("crc", "CRC")])],
+                    name="sch_checksum"))
+    out.append(desc("little", [custom("UC", None), packet("P", [scalar("a", 8), typedef("u", "UC"), scalar("b", 8)])],
+                    name="sch_unsized_custom"))
+    out.append(desc("little", [custom("UC", None), packet("P", [count("u", 8), array("u", "UC")])], name="sch_unsized_custom_array"))
+    out.append(desc("little", [SS, struct("W", [array("x", "SS", count=2), padding(5), scalar("k", 8)]),
+                               packet("P", [typedef("w", "W"), array("ws", "W", count=3), array("wd", "W")])], name="sch_padded_nested"))
+    out.append(desc("little", [packet("A", [scalar("a", 8), payload()]), packet("B", [scalar("b", 16), body()], parent="A"),
+                               packet("C", [scalar("c", 24)], parent="B"), packet("D", [array("d", 8)], parent="B")],
+                    name="sch_inherited"))
+    out.append(desc("little", [DS, packet("P", [array("x", "DS", count=2), typedef("y", "DS"), array("z", "DS"), padding(7)])],
+                    name="sch_dynamic_parts"))
+    out.append(desc("little", [US, packet("P", [typedef("u", "US")]), packet("Q", [array("u", "US", count=2)])],
+                    name="sch_unknown_parts"))
+    out.append(desc("little", [E8, packet("P", [scalar("c", 1), reserved(7), typedef("e", "E8", cond=("c", 1)), scalar("o", 16, cond=("c", 0)),
+                                                size("_payload_", 8), payload(mod=3)])], name="sch_optional_payload"))
+    out.append(desc("little", [groupdecl("G", [scalar("g", 8), array("ga", 16, count=2)]), packet("P", [group("G"), scalar("t", 8)])],
+                    name="sch_group"))
+    return out
+
+
 def build(tier="quick"):
     ds = []
     for f in (bitfield_descs, enum_descs, array_descs, payload_descs, optional_descs, struct_descs, custom_descs,
